@@ -56,4 +56,18 @@ theorem finishFile_spec (cfg : Cfg) (file : APath) (contents : List Content) (st
       · exact Or.inl (Or.inr ⟨r, hr, hd⟩)
       · exact Or.inr h
 
+/-- For a program of one file the per-file reading of the rules (`violationsOrdered`, each file against the
+    declarations of the files finished no later than itself) is the whole-program reading (`violations`). -/
+theorem violationsOrdered_single (keys dd : List String) (pre : Registry) (f : ProgFile) :
+    violationsOrdered keys dd pre [f] = violations keys dd pre [f] := by
+  simp [violationsOrdered, violationsFrom, violations, regUpTo]
+
+/-- The last file of a program (the root: it is finished after everything it imports) is read against the
+    declarations of the whole program. -/
+theorem regUpTo_last (pre : Registry) (p : List ProgFile) (f : ProgFile) :
+    regUpTo pre (p ++ [f]) p.length = progRegistry pre (p ++ [f]) := by
+  have h : List.take (p.length + 1) (p ++ [f]) = p ++ [f] := by
+    apply List.take_of_length_le; simp
+  simp [regUpTo, h]
+
 end Pydjinni.Front
